@@ -39,9 +39,9 @@ def parse_expr(s):
     name, args = s[:i], [parse_expr(a) for a in split_top(",", s[i + 1:-1])]
     if name == "opt": return ("opt", args[0])
     if name == "seq": return ("seq", True, args[0])
-    if name == "iseq": return ("seq", False, args[0])
+    if name in ("iseq", "cseq"): return ("seq", False, args[0])
     if name == "bmap": return ("map", True, args[0], args[1])
-    if name == "imap": return ("map", False, args[0], args[1])
+    if name in ("imap", "cmap"): return ("map", False, args[0], args[1])
     if name == "tup": return ("tup", args)
     if name.startswith("arr"): return ("tup", [args[0]] * int(name[3:]))
     raise KeyError(s)
